@@ -1,4 +1,5 @@
-"""Normal form N1: private helper functions that the rules do not know by name are inlined into their callers.
+"""Normal form N1 + N2: private helper functions that the rules do not know by name are inlined into their callers (N1), loops over
+short literal tables are unrolled (N2, class _Unroller below).
 
 Why.  The rules are recognisers of code *shapes*.  Extracting a few lines into a new private helper (or splitting a long
 function in two) leaves behaviour unchanged but hides the shape from an intra-procedural recogniser.  Inlining is a
@@ -216,6 +217,82 @@ class _Inliner(ast.NodeTransformer):
         return node
 
 
+class _Unroller(ast.NodeTransformer):
+    """N2: `for <targets> in <literal tuple/list with at most 12 rows>` is replaced by one copy of its body per row, with the loop
+    variables replaced by the row's element expressions.  Applied only when the loop has no else/break/continue, the loop variables
+    are not rebound in the body and are not used after the loop, and (for tuple targets) every row is a literal tuple of matching
+    length.  The iterable may be a name bound exactly once in the function to such a literal."""
+
+    def __init__(self):
+        self.count = 0
+        self.fn_stack = []
+
+    def visit_FunctionDef(self, node):
+        self.fn_stack.append(node)
+        self.generic_visit(node)
+        self.fn_stack.pop()
+        return node
+
+    def _literal(self, it):
+        if isinstance(it, ast.Name) and self.fn_stack:
+            fn = self.fn_stack[-1]
+            defs = [n for n in ast.walk(fn) if isinstance(n, ast.Assign) and len(n.targets) == 1 and isinstance(n.targets[0], ast.Name)
+                    and n.targets[0].id == it.id]
+            stores = [n for n in ast.walk(fn) if isinstance(n, ast.Name) and n.id == it.id and isinstance(n.ctx, ast.Store)]
+            if len(defs) == 1 and len(stores) == 1:
+                it = defs[0].value
+        return it if isinstance(it, (ast.Tuple, ast.List)) and 1 <= len(it.elts) <= 12 else None
+
+    def _unroll(self, node):
+        lit = self._literal(node.iter)
+        if lit is None or node.orelse:
+            return None
+        if any(isinstance(x, (ast.Break, ast.Continue)) for b in node.body for x in ast.walk(b)):
+            return None
+        names = []
+        if isinstance(node.target, ast.Name):
+            names = [node.target.id]
+        elif isinstance(node.target, (ast.Tuple, ast.List)) and all(isinstance(e, ast.Name) for e in node.target.elts):
+            names = [e.id for e in node.target.elts]
+            if not all(isinstance(r, (ast.Tuple, ast.List)) and len(r.elts) == len(names) for r in lit.elts):
+                return None
+        else:
+            return None
+        if any(isinstance(x, ast.Name) and x.id in names and isinstance(x.ctx, (ast.Store, ast.Del)) for b in node.body for x in ast.walk(b)):
+            return None
+        if self.fn_stack:
+            fn = self.fn_stack[-1]
+            end = getattr(node, "end_lineno", node.lineno)
+            if any(isinstance(x, ast.Name) and x.id in names and isinstance(x.ctx, ast.Load) and x.lineno > end for x in ast.walk(fn)):
+                return None
+        if any(isinstance(x, ast.Starred) for r in lit.elts for x in ast.walk(r)):
+            return None
+        out = []
+        for r in lit.elts:
+            vals = [r] if isinstance(node.target, ast.Name) else list(r.elts)
+            sub = dict(zip(names, vals))
+
+            class R(ast.NodeTransformer):
+                def visit_Name(self, n):
+                    return copy.deepcopy(sub[n.id]) if n.id in sub and isinstance(n.ctx, ast.Load) else n
+            for st in node.body:
+                out.append(R().visit(copy.deepcopy(st)))
+        self.count += 1
+        return out
+
+    def generic_visit(self, node):
+        super().generic_visit(node)
+        for fld in ("body", "orelse", "finalbody"):
+            blk = getattr(node, fld, None)
+            if isinstance(blk, list) and blk and isinstance(blk[0], ast.stmt):
+                new = []
+                for st in blk:
+                    rep = self._unroll(st) if isinstance(st, ast.For) else None
+                    new.extend(rep if rep is not None else [st])
+                setattr(node, fld, new)
+        return node
+
+
 def normalise_module(tree: ast.Module, exported=()):
     """inline unknown private helpers of this module into their callers (in place on a deep copy); returns (new tree, info)"""
     tree = copy.deepcopy(tree)
@@ -230,5 +307,10 @@ def normalise_module(tree: ast.Module, exported=()):
             break
         info["call_sites"] += inl.count
         info["helpers_inlined"] = sorted(set(info["helpers_inlined"]) | inl.used)
+    un = _Unroller()
+    un.visit(tree)
+    info["loops_unrolled"] = un.count
+    if un.count:
+        info["call_sites"] += 0
     ast.fix_missing_locations(tree)
     return tree, info
